@@ -183,9 +183,9 @@ pub fn call_opt(c: usize, shared: Option<&RangeParameters<P>>) -> String {
             verify_digest(&[a.stmt, b.stmt, c3.stmt], &[a.proof, b.proof, c3.proof], VerifyAction::VerifyOnly)
         },
         18 => {
-            // a batch that is consistent for its first 20 members and not after (the last 20 use another bit length): refused as a
+            // a batch that is consistent for its first 32 members and not after (the last 32 use another bit length): refused as a
             // whole, however busy the process is
-            let a: Vec<Made> = (0..20u64).map(|i| make(params(2, 1, 1), 1, 1, false, 600 + i)).chain((0..20u64).map(|i| make(params(4, 1, 1), 1, 1, false, 700 + i))).collect();
+            let a: Vec<Made> = (0..32u64).map(|i| make(params(2, 1, 1), 1, 1, false, 600 + i)).chain((0..32u64).map(|i| make(params(4, 1, 1), 1, 1, false, 700 + i))).collect();
             let stmts: Vec<RangeStatement<P>> = a.iter().map(|m| m.stmt.clone()).collect();
             let proofs: Vec<RangeProof<P>> = a.iter().map(|m| RangeProof::<P>::from_bytes(&m.proof.to_bytes()).unwrap()).collect();
             verify_digest(&stmts, &proofs, VerifyAction::VerifyOnly)
@@ -326,9 +326,18 @@ pub fn race(nthreads: usize, run: u64, out: &mut Vec<Value>) {
             let mut order: Vec<usize> = (0..NCALLS).map(|i| (7 + th + i * stride) % NCALLS).collect();
             order.retain(|c| *c != 9);
             order.insert(0, 9);
-            for (seq, c) in order.into_iter().enumerate() {
+            let mut seq = 0;
+            for c in order.into_iter() {
+                seq += 1;
                 let d = std::panic::catch_unwind(std::panic::AssertUnwindSafe(|| call(c, &sh))).unwrap_or_else(|_| "panic".to_string());
-                let _ = rtx.send((th, seq + 1, c, d));
+                let _ = rtx.send((th, seq, c, d));
+            }
+            // then the SAME call on every thread at the same instant (released together by the barrier), a few verifying calls in turn
+            for c in [18usize, 6, 18, 17, 18] {
+                b.wait();
+                seq += 1;
+                let d = std::panic::catch_unwind(std::panic::AssertUnwindSafe(|| call(c, &sh))).unwrap_or_else(|_| "panic".to_string());
+                let _ = rtx.send((th, seq, c, d));
             }
         }));
     }
